@@ -500,7 +500,14 @@ static void run_c02(long cases) {
             else if (h.first == "Content-Encoding") rb.header<ContentEncoding>(Encoding::Gzip);
             else if (h.first == "Host") rb.header<Host>(h.second);
         }
-        for (auto& c : in.cookies) rb.cookie(Http::Cookie(c.first, c.second));
+        // a cookie that is sent back as it was received carries attributes (Path, Domain, Max-Age, Secure, ...): a request's Cookie
+        // header lists name=value pairs only, and that is all the server may see
+        bool reqCookieAttrs = r.chance(1, 3);
+        for (auto& c : in.cookies) { Http::Cookie ck(c.first, c.second);
+            if (reqCookieAttrs) { int m = r.range(1, 127); if (m & 1) ck.path = std::string("/p"); if (m & 2) ck.domain = std::string("example.org"); if (m & 4) ck.maxAge = r.range(0, 100000); if (m & 8) ck.secure = true; if (m & 16) ck.httpOnly = true;
+                if (m & 32) ck.expires = Http::FullDate(std::chrono::system_clock::time_point(std::chrono::seconds(1700000000))); if (m & 64) ck.ext["SameSite"] = "Lax"; }
+            rb.cookie(ck); }
+        if (reqCookieAttrs && !in.cookies.empty()) count("requests_with_attributed_cookies");
         if (!in.body.empty()) rb.body(in.body);
         std::atomic<int> done{0}; int gotCode = 0; std::string gotBody; std::map<std::string, std::string> gotTyped; std::set<std::string> gotCookies; bool rejected = false;
         rb.send().then([&](Http::Response resp) { gotCode = (int)resp.code(); gotBody = resp.body(); for (auto& h : resp.headers().list()) { std::ostringstream os; h->write(os); gotTyped[h->name()] = os.str(); }
